@@ -18,6 +18,7 @@ Spec on the implementation: `Netlist(n.write_yaml())` compared field by field wi
 from __future__ import annotations
 
 import math
+import os
 
 from vcheck import Ctx
 import netlist_common as nc
@@ -37,6 +38,8 @@ TRUSTED = [
     "text_parse_emit); fidelity to ruamel.yaml checked on every run (bytes of write_yaml, tree of read_yaml, edited "
     "texts), not proved; outside the subset (flow style, comments, anchors, keys > 122 characters) nothing is claimed",
     "float <-> decimal text (Python repr / float) is a hypothesis of the text theorems (float(repr(x)) == x)",
+    "integers: the model's emitInt / parseIntLit are total, CPython refuses str(int) / int(str) beyond 4300 digits "
+    "(sys.get_int_max_str_digits; ruamel would raise ValueError): integers of more than 4300 digits are outside the tie",
     "theorems are over exact ordered fields; IEEE rounding is executed (F stream), never proved",
     "harness (Python) and compiled Lean driver: encoding of trees, canonicalisation, comparison",
 ]
@@ -320,12 +323,23 @@ def yamltext_cases(ctx: Ctx, reqs: list, todo: list) -> None:
     """`read_yaml` decides between YAML text and a file name: the file-name branch is observed as FileNotFoundError on a
     name in a directory that does not exist."""
     alphabet = ["a", "b", "Z", "_", "1", ":", " ", ": ", "\n", " :", "-", "[", "]", ",", ".", "yaml", "{", "}"]
+    # the decisive characters at the very START of the string (index 0 / 1) and nowhere else: no directory prefix here
+    # (relative names that do not exist: the file-name branch still shows as FileNotFoundError)
+    fixed = [": c04_no_such_file", ": ", ":  c04", ": \n", "\n", "\nc04_no_such_file", "\n: ", "a: c04_no_such", "a\n", "a\nb",
+             " : c04_no_such", " \n", "x: ", ":c04_no_such_file", ":\n", "c04_no_such_file:", "c04_no_such_file :", "c04_no_such_file",
+             "", ":", " ", "c04 no such file", "- c04_no_such", "[c04_no_such]", "c04_no_such_file: ", "c04_no_such_file\n"]
+    probes = list(fixed)
+    for _ in range(ctx.n(20, 200)):
+        probes.append("".join(ctx.rng.choice([": ", "\n", ":", " ", "c04nofile", "_zq"]) for _ in range(ctx.rng.randint(1, 3))))
     for _ in range(ctx.n(40, 400)):
-        s = "/nonexistent_dir_c04/" + "".join(ctx.rng.choice(alphabet) for _ in range(ctx.rng.randint(0, 8)))
+        probes.append("/nonexistent_dir_c04/" + "".join(ctx.rng.choice(alphabet) for _ in range(ctx.rng.randint(0, 8))))
+    for s in probes:
+        if "\x00" in s or (s and os.path.exists(s)):
+            continue
         try:
             read_yaml(s)
             seen = "1"
-        except (FileNotFoundError, NotADirectoryError):
+        except (FileNotFoundError, NotADirectoryError, IsADirectoryError):
             seen = "0"
         except Exception:
             seen = "1"          # the YAML loader ran (and refused the text)
